@@ -326,8 +326,10 @@ static inline int vnadata_set_frequency_vector(vnadata_t *vdp,
 	errno = EINVAL;
 	return -1;
     }
-    (void)memcpy((void *)vdp->vd_frequency_vector, (void *)frequency_vector,
-	vdp->vd_frequencies * sizeof(double));
+    if (vdp->vd_frequencies > 0) {
+	(void)memcpy((void *)vdp->vd_frequency_vector, (void *)frequency_vector,
+	    vdp->vd_frequencies * sizeof(double));
+    }
     return 0;
 }
 
@@ -435,8 +437,10 @@ static inline int vnadata_set_matrix(vnadata_t *vdp, int findex,
 	return -1;
     }
 #endif /* VNADATA_NO_BOUNDS_CHECK */
-    (void)memcpy((void *)vdp->vd_data[findex], (void *)matrix,
-	vdp->vd_rows * vdp->vd_columns * sizeof(double complex));
+    if (vdp->vd_rows * vdp->vd_columns > 0) {
+	(void)memcpy((void *)vdp->vd_data[findex], (void *)matrix,
+	    vdp->vd_rows * vdp->vd_columns * sizeof(double complex));
+    }
     return 0;
 }
 
